@@ -27,10 +27,12 @@ pub enum Op {
     ExtendLazy1,
     /// extend from `Error::into_iter()` of a bundle of two
     ExtendErrIter,
+    /// push an error identical (message, span, location) to the one recorded last
+    PushDup,
     Checkpoint,
 }
 
-pub const OPS: [Op; 13] = [
+pub const OPS: [Op; 14] = [
     Op::HandleOk,
     Op::Push,
     Op::HandleErr,
@@ -43,6 +45,7 @@ pub const OPS: [Op; 13] = [
     Op::HandleErrBundle,
     Op::ExtendLazy1,
     Op::ExtendErrIter,
+    Op::PushDup,
     Op::Checkpoint,
 ];
 
@@ -72,7 +75,8 @@ fn leaf(id: u32) -> Error {
     // alternate kinds and locations so that Display distinguishes every recorded error
     match id % 3 {
         0 => Error::custom(format!("e{id}")),
-        1 => Error::unknown_field(&format!("e{id}")).at("loc"),
+        // every third error carries an explicit span (spanless and spanned errors interleave)
+        1 => Error::unknown_field(&format!("e{id}")).at("loc").with_span(&proc_macro2::Span::call_site()),
         _ => Error::missing_field(&format!("e{id}")),
     }
 }
@@ -96,7 +100,7 @@ fn leaves_of(ids: &[u32]) -> Vec<Error> {
 }
 
 fn show(e: &Error) -> String {
-    format!("{}|len={}", e, e.len())
+    format!("{}|len={}|spanned={}", e, e.len(), e.has_span())
 }
 
 impl Ref {
@@ -186,6 +190,17 @@ impl Ref {
                 self.recorded.push(vec![i]);
                 self.recorded.push(vec![j]);
             }
+            Op::PushDup => match self.recorded.last().cloned() {
+                Some(last) => {
+                    a.push(entry(&last));
+                    self.recorded.push(last);
+                }
+                None => {
+                    let id = self.fresh();
+                    a.push(leaf(id));
+                    self.recorded.push(vec![id]);
+                }
+            },
             Op::Checkpoint => {
                 let taken = acc.take().unwrap();
                 match taken.checkpoint() {
